@@ -26,7 +26,7 @@ ASSUMPTIONS = ['reference closure = lokiverif/project/refgraph.py, implementing 
 SHARDS = {'quick': 8, 'thorough': 16}
 BUDGET = {'quick': 50, 'thorough': 1200}
 
-CORE = gen.profile()
+CORE = gen.profile(free_fun_cycle=True)
 # wide profile: exactly one trigger of a (listed) finding switched on per case
 TRIGGERS = ['unq_interface_call', 'iface_same_module', 'iface_module_level_import', 'fun_unq_import',
             'fun_module_level_import', 'fun_calls_fun', 'type_rename', 'dupes_same_file', 'unsafe_config',
@@ -44,9 +44,12 @@ def cases(draw):
         if trigger == 'unsafe_config':
             safe = False
         else:
-            prof = gen.profile(**{trigger: True})
+            prof = gen.profile(free_fun_cycle=True, **{trigger: True})
     proj = draw(gen.projects(prof))
     cfg = draw(gen.configs(proj, prof, safe=safe))
+    if any(r['name'] == 'ffr0' for r in proj['free']):
+        # the mutually recursive free functions are referenced by nothing else: make one of them a seed
+        cfg['seeds'] = cfg['seeds'] + ['ffr0']
     return {'proj': proj, 'cfg': cfg, 'full_parse': draw(st.booleans()), 'trigger': trigger}
 
 
@@ -281,6 +284,14 @@ def check_case(case, ctx):
         ctx.fail(sig, case, f'not found: {missing_defs}')
         if twin:
             return
+    # (1b) a reference cycle whose members are all RECURSIVE procedures is broken: the produced graph is acyclic
+    ref_cyc = refgraph.cyclic_edges(set(got['items']), {e for e in ref['edges'] if e[0] in got['items'] and e[1] in got['items']})
+    cyc_nodes = {n for e in ref_cyc for n in e}
+    if cyc_nodes and cyc_nodes <= ref['recursive']:
+        left = refgraph.cyclic_edges(set(got['items']), got['edges'])
+        if left:
+            ctx.fail('C21:recursive-cycle-not-broken', case, f'[full_parse={fp}] every member of the cycle '
+                     f'{sorted(cyc_nodes)} is a RECURSIVE procedure, yet the graph keeps the cyclic edges {sorted(left)}')
     # (1) reference closure
     fails = explain(case, ix, ref, got, fp)
     for sig, detail in fails:
